@@ -92,9 +92,10 @@ type Style struct {
 	Abbrev     bool // use abbreviated syntax where possible (random per site)
 	Parens     bool // add redundant parentheses (random per site)
 	Whitespace bool // add random whitespace between tokens
+	Force      bool // every optional abbreviation is taken
 }
 
-func (s *Style) coin() bool { return s.R != nil && s.R.Chance(1, 2) }
+func (s *Style) coin() bool { return s.Force || (s.R != nil && s.R.Chance(1, 2)) }
 
 func (s *Style) ws() string {
 	if s.Whitespace && s.R != nil && s.R.Chance(1, 3) {
